@@ -21,5 +21,6 @@ P("C14",
   assumptions=["buffer names are valid UTF-8 (encoding/json replaces invalid bytes by U+FFFD, so such a name would not survive a JSON round trip)",
                "element type is instantiated at uint64 in the tie (the Go code is parametric in T; the model is parametric in A and its zero value)",
                "a single goroutine uses the buffer and Buffer values are not copied while in use (a copy shares the backing array)"],
+  quick_shards=8,
   trusted=["modelled, not verified: queueing/buffer.go (all methods), queueing/buffer_json.go; encoding/json is used as a black box at the DTO level"],
   )
